@@ -22,7 +22,7 @@ ASSUMPTIONS = ['tolerance = level * (Lipschitz(profile) * 64 ulp(fmax) + 1e-9)',
                'Voigt FWHM from the 0.5346/0.2166 approximation']
 REQUIRED_CLASSES = ['drift<0', 'drift=0', 'drift>0', 'smear', 'nosmear', 'width<0.5', 'width<1', 'width>=1',
                     'start=inside', 'start=edge', 'start=outside', 'type=box', 'type=sinc2', 'type=gaussian',
-                    'type=lorentzian', 'type=voigt', 'visible']
+                    'type=lorentzian', 'type=voigt', 'visible', 'quantity=MHz', 'quantity=GHz', 'level_type=np.float32', 'level_type=np.int64', 'earlier_call_on_coarser_frame']
 
 TYPES = ['sinc2', 'box', 'gaussian', 'lorentzian', 'voigt']
 
@@ -43,7 +43,9 @@ def strategy_(draw, tier):
     width = draw(st.one_of(gen.finite(0.05, 0.5), gen.finite(0.5, 1.0), gen.finite(1.0, 10.0)))
     return dict(g=g, start=start, drift=drift, level=draw(st.one_of(st.just(1.0), gen.finite(0.1, 50))),
                 width=width, type=draw(st.sampled_from(TYPES)), smear=draw(st.booleans()),
-                quantity=draw(st.booleans()))
+                quantity=draw(st.sampled_from([None, None, 'Hz', 'kHz', 'MHz', 'GHz'])),
+                level_type=draw(st.sampled_from(['float', 'float', 'int', 'np.float32', 'np.int64', 'np.float64'])),
+                coarse_first=draw(st.sampled_from([False, False, True])))
 
 
 def strategy(tier):
@@ -88,15 +90,39 @@ def run_case(case, ctx):
     s = case['start']
     obs.cls('start=inside' if 0.5 <= s <= N - 1.5 else ('start=edge' if -0.5 <= s <= N - 0.5 else 'start=outside'))
 
+    lt = case.get('level_type', 'float')
+    level_value = {'float': float(case['level']), 'int': max(1, int(case['level'])), 'np.float32': np.float32(case['level']),
+                   'np.int64': np.int64(max(1, int(case['level']))), 'np.float64': np.float64(case['level'])}[lt]
+    case = dict(case, level=float(level_value))       # the value every reference uses
+    obs.cls('level_type=' + lt)
+    qn = case.get('quantity')
+    if qn is True:
+        qn = 'Hz'
+
     def helper(frame, fs_, rate_):
-        if case['quantity']:
-            return frame.add_constant_signal(f_start=fs_ * u.Hz, drift_rate=rate_ * u.Hz / u.s, level=case['level'],
-                                             width=width * u.Hz, f_profile_type=case['type'], doppler_smearing=smear)
-        return frame.add_constant_signal(f_start=fs_, drift_rate=rate_, level=case['level'], width=width,
+        if qn:
+            un = getattr(u, qn)
+            obs.cls('quantity=' + qn)
+            # unit conversion may cost an ulp of the start frequency: well inside the comparison tolerance
+            return frame.add_constant_signal(f_start=(fs_ * u.Hz).to(un), drift_rate=(rate_ * u.Hz / u.s).to(un / u.s), level=level_value,
+                                             width=(width * u.Hz).to(u.kHz), f_profile_type=case['type'], doppler_smearing=smear)
+        return frame.add_constant_signal(f_start=fs_, drift_rate=rate_, level=level_value, width=width,
                                          f_profile_type=case['type'], doppler_smearing=smear)
 
-    # the property's sub-step count, evaluated on the doubles actually passed
-    n_s = max(1, int(math.ceil(abs(rate) / fr.unit_drift_rate))) if smear else 1
+    if case.get('coarse_first'):
+        # an earlier call elsewhere in the session: same profile type and width in Hz on a much coarser frame
+        obs.cls('earlier_call_on_coarser_frame')
+        coarse = stg.Frame(fchans=max(4, g['fchans'] // 4), tchans=g['tchans'], df=64 * fr.df, dt=fr.dt, fch1=fr.fch1,
+                           ascending=bool(g['ascending']), t_start=0.0)
+        core.call(obs, 'helper[coarser frame first]', helper, coarse, f_start, rate)
+
+    # the property's sub-step count, evaluated on the doubles actually passed (a Quantity in MHz/s comes back to Hz/s
+    # with an ulp of difference, which matters exactly at whole multiples of the unit drift rate)
+    qn0 = case.get('quantity')
+    if qn0 is True:
+        qn0 = 'Hz'
+    rate_seen = float(((rate * u.Hz / u.s).to(getattr(u, qn0) / u.s)).to(u.Hz / u.s).value) if qn0 else rate
+    n_s = max(1, int(math.ceil(abs(rate_seen) / fr.unit_drift_rate))) if smear else 1
     fdesc = profile_desc(case)
 
     def general(frame, fs_, rate_, smear_=smear, n=n_s):
